@@ -830,7 +830,8 @@ def classes():
 
 # ------------------------------------------------------------------ end to end (supporting)
 SAFE_TOP = [b"t1", b"tree", b"file.txt", b"data_2", b"A"]
-HOSTS3 = ["h1", "h2", "h3"]
+# one target name with dots: `SRC.host` carries the whole name (diagnostics show the short one, err.c %S)
+HOSTS3 = ["h1", "n2.dom.ain", "h3"]
 
 
 def tame(node):
@@ -864,7 +865,7 @@ def run_e2e(ctx, cov, dist):
     for n in ("pdcp", "rpdcp"):
         if not os.path.lexists(os.path.join(bindir, n)):
             os.symlink(os.path.join(repo, "src/pdsh/pdsh"), os.path.join(bindir, n))
-    nruns = 11 if ctx.quick() else 60
+    nruns = 12 if ctx.quick() else 60
     future = FUTURE
     dist["e2e_runs"] = 0
     for k in range(nruns):
@@ -888,7 +889,8 @@ def run_e2e(ctx, cov, dist):
         # -p on and off in both directions, no -r for plain files
         plan = [dict(p=1, shape="emptydir"), dict(p=1, shape="any"), dict(p=0, shape="file"), dict(p=0, shape="any"),
                 dict(p=1, shape="two"), dict(p=1, shape="file"), dict(p=0, shape="twofiles-destfile"), dict(p=0, shape="unreadable"),
-                dict(p=1, shape="newname"), dict(p=1, shape="tree"), dict(p=0, shape="reverse-blocked")]
+                dict(p=1, shape="newname"), dict(p=1, shape="tree"), dict(p=0, shape="reverse-blocked"),
+                dict(p=1, shape="deep-reverse")]
         shape = "any"
         if k < len(plan):
             p, shape = plan[k]["p"], plan[k]["shape"]
@@ -909,6 +911,14 @@ def run_e2e(ctx, cov, dist):
             reverse = True
             trees = [Node(b"file.txt", "f", 0o640, 1300000001, gen=(84, pcp.BUFSIZ + 1)), Node(b"data_2", "f", 0o600, 1300000002, gen=(85, 20))]
             r = 0
+        elif shape == "deep-reverse":
+            # rpdcp -r of a tree 30 levels deep: the local receivers are per-target threads on 128 KiB stacks
+            reverse = True
+            deep = Node(b"leaf", "f", 0o644, 1300000099, gen=(86, 10))
+            for lvl in range(30):
+                deep = Node(b"l%d" % (lvl % 4), "d", 0o755, 1300000010 + lvl, kids=[deep])
+            deep.name = b"deep"
+            trees = [deep]
         elif shape == "tree":
             # a fixed tree with -r in a REVERSE copy: nested and empty directories, a file of several blocks
             reverse = True
@@ -943,7 +953,7 @@ def run_e2e(ctx, cov, dist):
                 tame(t)
         bw = os.fsencode(w)
         roots = [bw + b"/" + h.encode() + b"/rsrc" for h in HOSTS3] if reverse else [bw + b"/src"]
-        destfile_host = "h2" if shape == "twofiles-destfile" else None
+        destfile_host = HOSTS3[1] if shape == "twofiles-destfile" else None
         for h in HOSTS3:
             if h == destfile_host:
                 os.makedirs(os.path.join(w, h))
@@ -952,7 +962,7 @@ def run_e2e(ctx, cov, dist):
             else:
                 os.makedirs(os.path.join(w, h, "dst"))
         os.makedirs(os.path.join(w, "out"))
-        blocked_host = "h2" if shape == "reverse-blocked" else None
+        blocked_host = HOSTS3[1] if shape == "reverse-blocked" else None
         if blocked_host:
             os.makedirs(os.path.join(w, "out", "file.txt." + blocked_host))
         for root in roots:
@@ -968,10 +978,10 @@ def run_e2e(ctx, cov, dist):
         flags = (["-r"] if r else []) + (["-p"] if p else [])
         if reverse:
             users = ["rsrc/" + t.name.decode() for t in trees]
-            cmd = ["rpdcp", "-R", "pcptest", "-w", "h[1-3]"] + flags + ["-e", wrapper] + users + ["out"]
+            cmd = ["rpdcp", "-R", "pcptest", "-w", ",".join(HOSTS3)] + flags + ["-e", wrapper] + users + ["out"]
         else:
             users = ["src/" + t.name.decode() for t in trees]
-            cmd = ["pdcp", "-R", "pcptest", "-w", "h[1-3]"] + flags + ["-e", wrapper] + users + [
+            cmd = ["pdcp", "-R", "pcptest", "-w", ",".join(HOSTS3)] + flags + ["-e", wrapper] + users + [
                 "dst/newname" if shape == "newname" else "dst"]
         full = ["setpriv", "--reuid", "1000", "--regid", "1000", "--clear-groups"] + env + cmd
         cj = dict(e2e=True, command=" ".join(cmd), sources=[describe(t) for t in trees])
@@ -1037,12 +1047,12 @@ def run_e2e(ctx, cov, dist):
             if not kept:
                 ctx.offender("e2e:dest-file-overwritten", "two sources copied to a destination that is a regular file on "
                              "target %s: the file was overwritten/replaced" % destfile_host, cj)
-            if destfile_host.encode() not in pr.stderr and pr.returncode == 0:
+            if destfile_host.split(".")[0].encode() not in pr.stderr and pr.returncode == 0:
                 ctx.offender("e2e:unreported", "two sources copied to a destination that is a regular file on target "
                              "%s: no error was reported for that target" % destfile_host, cj)
         elif blocked_host:
             errl = [l for l in pr.stderr.split(b"\n") if l.strip()]
-            if not any(blocked_host.encode() in l for l in errl):
+            if not any(blocked_host.split(".")[0].encode() in l for l in errl):
                 ctx.offender("e2e:unreported", "rpdcp: the local name file.txt.%s is taken by a directory: no error was "
                              "reported for that host (stderr %r)" % (blocked_host, pr.stderr[-200:]), cj)
             if any(h.encode() + b":" in l for l in errl for h in HOSTS3 if h != blocked_host):
@@ -1145,6 +1155,12 @@ def multi_corpus(k0):
                  for j, (h, bl) in enumerate(((b"h1", b"f1"), (b"h2", b"f2")))]
         out.append(dict(k=k0 + len(out), multi=True, p=0, um=0o27 if urace else 0o22, conns=conns, cut="records", race=race,
                         urace=urace))
+    # a DEEP tree from every host: the receivers are threads on small stacks (dsh.c: 128 KiB per target thread) and
+    # _sink() recurses once per directory level (seeded change C11-9: an 8 KiB buffer in every frame)
+    for depth in (24, 60):
+        conns = [dict(host=h, files=[(b"f1", 5, 0o644, 1234567890, 3)], blocked=[], dir=False, dirblocked=False,
+                      senddata=False, overwrite=False, deep=depth) for h in (b"h1", b"n2.dom.ain")]
+        out.append(dict(k=k0 + len(out), multi=True, p=0, um=0o22, conns=conns, cut="records", race=None, urace=None))
     return out
 
 
@@ -1158,6 +1174,12 @@ def multi_stream(c, cn):
         recs.append(b"C%04o %d %s\n" % (mode, size, name))
         if n not in cn["blocked"] or cn["senddata"]:
             recs.append(pcp.lcg_bytes(seed, size) + b"\0")
+    for lvl in range(cn.get("deep", 0)):
+        recs.append(b"D0755 0 %s\n" % (b"deep." + cn["host"] if lvl == 0 else b"l%d" % lvl))
+    if cn.get("deep", 0):
+        recs.append(b"C0644 4 leaf\n")
+        recs.append(b"deep\0")
+        recs += [b"E\n"] * cn["deep"]
     if cn["dir"]:
         if c["p"]:
             recs.append(b"T1300000000 0 1300000001 0\n")
@@ -1193,7 +1215,8 @@ def multi_json(c):
                 umask_race=list(c["urace"]) if c.get("urace") else None,
                 conns=[dict(host=cn["host"].decode(), files=[[f[0].decode("latin-1")] + list(f[1:]) for f in cn["files"]],
                             blocked=[b.decode("latin-1") for b in cn["blocked"]], dir=cn["dir"],
-                            dirblocked=cn["dirblocked"], senddata=cn["senddata"], overwrite=cn["overwrite"])
+                            dirblocked=cn["dirblocked"], senddata=cn["senddata"], overwrite=cn["overwrite"],
+                            deep=cn.get("deep", 0))
                        for cn in c["conns"]])
 
 
@@ -1203,7 +1226,8 @@ def multi_from_json(j, k):
                 urace=tuple(j["umask_race"]) if j.get("umask_race") else None,
                 conns=[dict(host=cn["host"].encode(), files=[tuple([f[0].encode("latin-1")] + f[1:]) for f in cn["files"]],
                             blocked=[b.encode("latin-1") for b in cn["blocked"]], dir=cn["dir"],
-                            dirblocked=cn["dirblocked"], senddata=cn["senddata"], overwrite=cn["overwrite"])
+                            dirblocked=cn["dirblocked"], senddata=cn["senddata"], overwrite=cn["overwrite"],
+                            deep=cn.get("deep", 0))
                        for cn in j["conns"]])
 
 
@@ -1463,7 +1487,10 @@ def run(ctx):
     ctx.audit(PROPS)
     pcp.BUFSIZ = read_const("PCP_BUFSIZ")
     exe = os.path.join(ctx.scratch, "pcp_h")
-    ok = ctx.cc(exe, [os.path.join(HARNESS, "pcp_harness.c")], flags=SAN_FLAGS, san=True, assertions=True)
+    # the stack size dsh.c gives its per-target threads (the rpdcp receivers run on them)
+    mstack = re.search(r"^#define\s+DSH_THREAD_STACKSIZE\s+([0-9*+() \t]+)$", open(os.path.join(REPO, "src/pdsh/dsh.c")).read(), re.M)
+    stackflag = "-DHARNESS_THREAD_STACKSIZE=(%s)" % (mstack.group(1).strip() if mstack else "128*1024")
+    ok = ctx.cc(exe, [os.path.join(HARNESS, "pcp_harness.c")], flags=SAN_FLAGS + (stackflag,), san=True, assertions=True)
     cov = {"evaluations": 0, "distinct_nontrivial": 0, "samples": [],
            "rule": "source trees of regular files and directories: depth <= 5, fan-out <= 6, sizes 0,1,8191,8192,8193,"
                    "3*8192-1..+1 and random small, names with blanks, shell metacharacters, control and non-ASCII bytes "
